@@ -20,6 +20,7 @@ import Acme.Driver.SaveSel
 import Acme.Driver.Import
 import Acme.Driver.Save
 import Acme.Driver.Attr
+import Acme.Driver.ImportBus
 
 open Acme.Driver
 
@@ -47,6 +48,7 @@ def stepLine (s : DState) (line : String) : DState × String :=
   | "imp" :: rest => (s, ImportD.handle rest)
   | "sv" :: rest => (s, SaveD.handle rest)
   | "at" :: rest => (s, AttrD.handle rest)
+  | "ib" :: rest => (s, ImportBusD.handle rest)
   | _ => (s, "bad-op")
 
 partial def loop (hin : IO.FS.Stream) (hout : IO.FS.Stream) (s : DState) : IO Unit := do
